@@ -908,6 +908,35 @@ func (x *X) frameObligations(fr *Frame, out *State, c, sch *Contract) {
 			}
 		}
 	}
+	// "elems(e)": the elements of the slice value e (at entry) may change; only
+	// meaningful for functions that are never called from verified code (the
+	// extracted grammar actions), so it is honoured here and nowhere else
+	type sliceMod struct {
+		base Term
+		key  string
+	}
+	var sliceMods []sliceMod
+	var plain []string
+	for _, m := range mods {
+		if strings.HasPrefix(m, "elems(") && strings.HasSuffix(m, ")") {
+			cl := x.db.modClause(fr.fn, m[6:len(m)-1])
+			pkg := x.db.pkgOf(fr.fn)
+			if err := x.db.compile(cl, pkg.pkg, x.fnResolver(fr.fn, nil)); err != nil {
+				x.db.errorf("%v", err)
+				continue
+			}
+			env := &specEnv{x: x, st: x.entry, vars: x.entryVars(fr), fr: fr, info: cl.info, where: cl.Line}
+			x.pure++
+			v := env.evalTerm(cl.expr)
+			x.pure--
+			if sl, ok := env.typeOf(cl.expr).Underlying().(*types.Slice); ok {
+				sliceMods = append(sliceMods, sliceMod{app(SInt, "sbase", v), x.elemsKey(x.enc.sortOf(sl.Elem()))})
+			}
+			continue
+		}
+		plain = append(plain, m)
+	}
+	mods = plain
 	targets := x.modifiesTargets(fr, x.entry, fr.fn, mods, x.entryVars(fr))
 	alloc0 := x.get(x.entry, x.allocKey())
 	fprops := []string{"C05", "C09", "C19"}
@@ -935,6 +964,11 @@ func (x *X) frameObligations(fr *Frame, out *State, c, sch *Contract) {
 						old := x.load(x.entry, p)
 						except = append(except, mkNot(mkEq(r, app(SInt, "sbase", old))))
 					}
+				}
+			}
+			for _, sm := range sliceMods {
+				if sm.key == k {
+					except = append(except, mkNot(mkEq(r, sm.base)))
 				}
 			}
 			ki := x.keys[k]
